@@ -85,14 +85,15 @@ CLAIMS = {
                 "the integer key 100*score-level, exact for levels 0..99; outside the entry answers 'unmodelled'. Argument parsing, re-rendering and fetch are not in this model.",
     },
     "C01": {
-        "text": "PARTIAL proof + full correspondence. Theorems (all word lists / widths / following text, closed under the global context): the VALUE WORDS of a definition survive "
-                "print -> parse at every width - the text emitted by the printer's show_words (with continuation backslashes where the width demands it) is read by "
-                "collect_assigned_words as exactly those words (texts, quote styles, lines) and the parser continues at the following text; a whole definition `name = words` "
-                "(dotted or not) parses back to itself at every width; quoted words are read back exactly; the parser never yields a lone backslash word. The remaining clauses "
-                "(attributes incl. wrapped help and types, '!', scopes/nesting, level views, byte-identical second print) are decided on every run by running parse -> print -> parse "
-                "-> print in freephil and in the extracted parser/printer model on rich generated documents, and by the oracle comparing the trees under the level's view.",
+        "text": "Theorems (closed under the global context): WHOLE TREES at attributes level 0, any print width - for every tree of the shape scope.adopt builds (dtree_ok: identifier "
+                "names, dotted-name prefix scopes, value words in words_ok, no deprecated/template/include objects; evaluated on every parsed tree of the stream) the printed text "
+                "parses to a tree with the same names, nesting, order, disabled marks, merge flags, word texts and quote styles, and printing the re-parsed tree is byte-identical; "
+                "level 3 for trees whose attributes are the bool/int ones; value words of a definition survive print -> parse at every width (continuation backslashes incl.); quoted "
+                "words read back exactly; the parser never yields a lone backslash word. PARTIAL: string-valued attributes (wrapped help), .type/.call, levels 1/2 views, deprecated "
+                "definitions are decided on every run by running parse -> print -> parse -> print in freephil and in the extracted parser/printer model on rich generated documents "
+                "and by the oracle comparing the trees under the level's view.",
         "note": "Trusted: Coq kernel, extraction, driver, harness, hand-written models of tokenizer.py, parser.py, the printer in common.py, str(converter); textwrap.wrap "
-                "modelled for the options the code passes; float converters carried as printed text. Domain words_ok of the word theorem: see Properties/C01.v.",
+                "modelled for the options the code passes; float converters carried as printed text.",
     },
     "C19": {
         "text": "Theorems over the printer model for all trees/widths/prefixes: printing with expert level k is byte-identical to printing the pruned tree without "
@@ -129,7 +130,8 @@ CLAIMS = {
         "note": "Trusted as C02. Converter value texts: C10 stream. eval bombs are not generated (a value like 9**9**9**9 does not return: limitation).",
     },
     "C03": {
-        "text": "Full-strength theorems (all strings over Latin-1, all four quote styles, any following text, both tokenizer contexts): "
+        "text": "Full-strength theorems (all strings over Latin-1, all four quote styles, any following text, both tokenizer contexts; plus C03_in_document at PARSER level: "
+                "the quoted text as value of a definition followed by a further definition parses to exactly that word, the next definition intact on the right line): "
                 "nw (quote_str q s ++ rest) returns exactly the word (s,q), leaves rest, advances the line counter by the newlines of s; "
                 "tokenize_value_literal (quote_str q s) = [word]. Tied to the code by exhaustive-to-length-4/5 + random differential execution "
                 "of quote_python_str / word_iterator against the extracted model on every run.",
